@@ -419,6 +419,13 @@ Definition stmt_C08_no_disabled_positions : Prop :=
   (forall i v p, variant_at it i v p -> vp_disabled p = false) ->
   map ct_variant (ic_table c) = seq 0 (length (i_variants it)).
 
+(* the four descriptions taken together: on an enum with no disabled variant, COUNT, the number of names, the array and
+   the iterator's table all have the same length and the array lists the iterator's variants in the iterator's order *)
+Definition stmt_C08_four_agree : Prop :=
+  forall it c n ns arr, gen_iter it = Ok c -> gen_count it = Ok n -> gen_variant_names it = Ok ns ->
+  gen_variant_array it = Ok arr -> (forall i v p, variant_at it i v p -> vp_disabled p = false) ->
+  n = length ns /\ n = length arr /\ n = length (ic_table c) /\ arr = map ct_variant (ic_table c).
+
 (* ======================= C10 ======================= *)
 Definition stmt_C10_slots : Prop :=
   forall it c, gen_table it = Ok c ->
